@@ -33,7 +33,7 @@ ASSUMPTIONS = [
     "allowed failure types: xsdata.codegen.exceptions.CodegenError, xsdata.exceptions.ParserError (sources the generator cannot parse)",
     "illegal dataclass flag sets (order without eq, ...) are not generated",
 ]
-MIN_DISTINCT = {"quick": 60, "thorough": 2500}
+MIN_DISTINCT = {"quick": 300, "thorough": 2500}
 TIME = {"quick": 50, "thorough": 900}
 SHARDS = {"quick": 14, "thorough": 14}
 
@@ -351,7 +351,7 @@ def run_shard(ctx):
             ctx.inconc("probe C07/custom-safe-prefix-collides-with-real-name could not run")
         elif r:
             ctx.known_finding("C07/custom-safe-prefix-collides-with-real-name")
-    n = ctx.per_shard(ctx.pick(84, 3000))
+    n = ctx.per_shard(ctx.pick(420, 3000))
     k = 0
     while k < n and (ctx.time_left() > 0 or len(ctx.fingerprints) < MIN_DISTINCT[ctx.tier] // ctx.nshards + 1):
         kind = KINDS[(k + ctx.shard) % len(KINDS)]
